@@ -13,6 +13,8 @@
   output for the normalised tree without a normalizer.
   Part 4 (`C19_write_nopanic_any_writer`, `C19_write_fails_with_io`, `C19_write_error_priority`): `serialize_write`
   in front of a writer that refuses a `write_all` call — `Error::Io`, never a panic.
+  Part 6 (`C19_write_fails_with_io_bytes`, `C19_write_nopanic_any_writer_bytes`, `C19_write_error_priority_bytes`): the
+  same in front of a BYTE-level writer (a refused call lets through `k` bytes, possibly ending inside a character).
   Defect kept visible: `C19_xhtml_const_defect` (so "XHTML_NS" below is the namespace the crate's
   constant names, the `https` spelling: the partial form of the property).
 -/
@@ -28,6 +30,7 @@ import XotModel.Lemmas.Html5Pretty
 import XotModel.Lemmas.Html5PrettyWhere
 import XotModel.Lemmas.NormalizerFullwidth
 import XotModel.Lemmas.WriterHtml
+import XotModel.Lemmas.WriterBytes
 import XotModel.Lemmas.Html5PrettyBetween
 import XotModel.Lemmas.Html5Suppress
 
@@ -1168,5 +1171,165 @@ example :
 /-- `C19_suppress_semantics` is not vacuous: `[ul, div]` is a list of HTML names. -/
 example : ∀ s ∈ [5, 2], (htmlCtx c19WsEnv {}).h.isHtmlNamespace ((htmlCtx c19WsEnv {}).env.nsOfName s) = true := by
   decide
+
+/-! ## Part 6: a writer that fails, at BYTE level
+
+Part 4 counts what a refused call lets through in CHARACTERS.  A real `io::Write` receives the UTF-8 bytes of each
+piece and may stop anywhere, also inside a multi-byte character.  `Model/WriterBytes.lean`: `utf8` (the encoder; it is
+Lean's `String.toUTF8` for every text, `Lemmas/WriterBytes.lean: utf8_toUTF8`), `BytePolicy` (`some k` = refused
+after `k` BYTES of this call), `serializeHtmlWriteNB B N` / `serializeHtmlWriteB B` = the trace `serializeHtmlCallsN`
+replayed against `B`.  The trace is the same for every writer (`serializeHtmlWriteNW_eq_replayCalls`: for every
+character-level writer the threaded function is this trace replayed); (6) ties the byte-level result back to the
+threaded function in front of `B.chars`. -/
+
+/-- **A failing BYTE-level writer gives `Error::Io`, never a panic**, and holds a prefix of the UTF-8 bytes of the
+    string serialisation — possibly ending inside a character.  For every byte-level writer `B`, normalizer, tree,
+    start path, vocabulary and parameter set:
+    (1) either one call is refused: the calls are `pre ++ c :: post`, `B` accepts `pre` and answers `some k` to `c`;
+        the call returns `Err(Io)` and the writer holds the bytes of `pre` followed by the first `k` bytes of `c`;
+        or none is, and the result is that of the never-failing writer as bytes;
+    (2) never a panic;
+    (3) what the writer holds is a PREFIX of `utf8` of what the never-failing writer receives;
+    (4) when `serialize_string_with_normalizer` returns `Ok(s)`: no refusal gives `Ok` with exactly `utf8 s`, a
+        refusal gives `Io`, and in both cases the writer holds a prefix of `utf8 s`;
+    (5) `ByteBudgetWriter { remaining: n }`: enough budget gives the old result; less gives `Io` and the writer
+        holds exactly the first `n` bytes — wherever in a character that falls;
+    (6) the character level: the outcome is that of the threaded `serializeHtmlWriteNW` in front of `B.chars`, the
+        bytes held are the `utf8` of the characters that one holds plus at most 3 bytes (none unless `Io`);
+    (7) the never-failing writer holds `utf8` of the never-failing model's text;
+    (8) `N = id` is the entry point without normalizer. -/
+theorem C19_write_fails_with_io_bytes (B : BytePolicy) (N : Str → Str) (env : Env) (p : HtmlParams) (t : Tree)
+    (start : Path) :
+    ((∃ pre c post k, (serializeHtmlCallsN N env p t start).1 = pre ++ c :: post ∧
+          writeCallsB B [] pre = .ok (pre.map utf8) ∧ B (pre.map utf8) (utf8 c) = some k ∧
+          serializeHtmlWriteNB B N env p t start = (utf8 pre.flatten ++ (utf8 c).take k, .err .io)) ∨
+      (writeCallsB B [] (serializeHtmlCallsN N env p t start).1 = .ok ((serializeHtmlCallsN N env p t start).1.map utf8) ∧
+          serializeHtmlWriteNB B N env p t start
+            = (utf8 (serializeHtmlWriteN N env p t start).1, (serializeHtmlWriteN N env p t start).2))) ∧
+    (serializeHtmlWriteNB B N env p t start).2 ≠ .panic ∧
+    (∃ rest, utf8 (serializeHtmlWriteN N env p t start).1 = (serializeHtmlWriteNB B N env p t start).1 ++ rest) ∧
+    (∀ s, serializeHtmlStringN N env p t start = .ok s →
+        (writeCallsB B [] (serializeHtmlCallsN N env p t start).1 = .ok ((serializeHtmlCallsN N env p t start).1.map utf8) →
+          serializeHtmlWriteNB B N env p t start = (utf8 s, .ok ())) ∧
+        (∀ b, writeCallsB B [] (serializeHtmlCallsN N env p t start).1 = .error b →
+          serializeHtmlWriteNB B N env p t start = (b, .err .io)) ∧
+        ∃ rest, utf8 s = (serializeHtmlWriteNB B N env p t start).1 ++ rest) ∧
+    (∀ n, serializeHtmlWriteNB (BytePolicy.byteBudget n) N env p t start =
+        if (utf8 (serializeHtmlWriteN N env p t start).1).length ≤ n
+        then (utf8 (serializeHtmlWriteN N env p t start).1, (serializeHtmlWriteN N env p t start).2)
+        else ((utf8 (serializeHtmlWriteN N env p t start).1).take n, .err .io)) ∧
+    ((serializeHtmlWriteNB B N env p t start).2 = (serializeHtmlWriteNW B.chars N env p t start).2 ∧
+      ∃ tail, (serializeHtmlWriteNB B N env p t start).1
+          = utf8 (serializeHtmlWriteNW B.chars N env p t start).1 ++ tail ∧ tail.length ≤ 3 ∧
+        ((serializeHtmlWriteNB B N env p t start).2 ≠ .err .io → tail = [])) ∧
+    serializeHtmlWriteNB BytePolicy.unlimited N env p t start
+      = (utf8 (serializeHtmlWriteN N env p t start).1, (serializeHtmlWriteN N env p t start).2) ∧
+    serializeHtmlWriteNB B id env p t start = serializeHtmlWriteB B env p t start := by
+  have hcalls := serializeHtmlCallsN_eq N env p t start
+  have h1 : (serializeHtmlCallsN N env p t start).1.flatten = (serializeHtmlWriteN N env p t start).1 :=
+    congrArg Prod.fst hcalls
+  have h2 : (serializeHtmlCallsN N env p t start).2 = (serializeHtmlWriteN N env p t start).2 :=
+    congrArg Prod.snd hcalls
+  have hpre : ∃ rest, utf8 (serializeHtmlWriteN N env p t start).1
+      = (serializeHtmlWriteNB B N env p t start).1 ++ rest := by
+    rw [← h1]; exact replayCallsB_prefix_utf8 B _
+  refine ⟨?_, ?_, hpre, ?_, ?_, ?_, ?_, ?_⟩
+  · rcases replayCallsB_cases B (serializeHtmlCallsN N env p t start) with ⟨pre, c, post, k, a1, a2, a3, _, a5⟩ | ⟨a1, a2⟩
+    · exact Or.inl ⟨pre, c, post, k, a1, a2, a3, a5⟩
+    · rw [h1, h2] at a2; exact Or.inr ⟨a1, a2⟩
+  · intro h
+    have h3 := replayCallsB_panic B [] _ h
+    rw [h2, serializeHtmlWriteN_outcome] at h3
+    exact C19_nopanic_write env p t start h3
+  · intro s hs
+    have hw := (C19_normalizer_write N env p t start).2.1 s hs
+    refine ⟨?_, ?_, ?_⟩
+    · intro hok
+      unfold serializeHtmlWriteNB replayCallsB
+      rw [hok]
+      simp only []
+      rw [← utf8_flatten, h1, h2, hw]
+    · intro b hb
+      unfold serializeHtmlWriteNB replayCallsB
+      rw [hb]
+    · obtain ⟨rest, h⟩ := hpre
+      rw [hw] at h
+      exact ⟨rest, h⟩
+  · intro n
+    unfold serializeHtmlWriteNB
+    rw [replayCallsB_byteBudget, h1, h2]
+  · unfold serializeHtmlWriteNB
+    rw [serializeHtmlWriteNW_eq_replayCalls]
+    exact replayCallsB_chars B _
+  · unfold serializeHtmlWriteNB
+    rw [replayCallsB_unlimited, List.nil_append, ← utf8_flatten, h1, h2]
+  · unfold serializeHtmlWriteNB serializeHtmlWriteB
+    rw [serializeHtmlCallsN_id]
+
+/-- `serialize_write` never panics whatever the byte-level writer does (with or without normalizer). -/
+theorem C19_write_nopanic_any_writer_bytes (B : BytePolicy) (N : Str → Str) (env : Env) (p : HtmlParams) (t : Tree)
+    (start : Path) :
+    (serializeHtmlWriteNB B N env p t start).2 ≠ .panic ∧ (serializeHtmlWriteB B env p t start).2 ≠ .panic := by
+  refine ⟨(C19_write_fails_with_io_bytes B N env p t start).2.1, ?_⟩
+  rw [← (C19_write_fails_with_io_bytes B N env p t start).2.2.2.2.2.2.2]
+  exact (C19_write_fails_with_io_bytes B id env p t start).2.1
+
+/-- **Which error wins, byte level**: when the string entry point fails with `e`, a byte-level writer that accepts
+    every call made before `e` arises (the doctype, the tokens before) sees `e`; one that refuses any of them — after
+    however many bytes — makes the call return `Io`; with a byte budget the boundary is the byte length of those
+    calls. -/
+theorem C19_write_error_priority_bytes (B : BytePolicy) (N : Str → Str) (env : Env) (p : HtmlParams) (t : Tree)
+    (start : Path) (e : XotError) (he : serializeHtmlStringN N env p t start = .err e) :
+    (writeCallsB B [] (serializeHtmlCallsN N env p t start).1 = .ok ((serializeHtmlCallsN N env p t start).1.map utf8) →
+        serializeHtmlWriteNB B N env p t start = (utf8 (serializeHtmlCallsN N env p t start).1.flatten, .err e)) ∧
+    (∀ b, writeCallsB B [] (serializeHtmlCallsN N env p t start).1 = .error b →
+        serializeHtmlWriteNB B N env p t start = (b, .err .io)) ∧
+    (∀ n, (utf8 (serializeHtmlCallsN N env p t start).1.flatten).length ≤ n →
+        (serializeHtmlWriteNB (BytePolicy.byteBudget n) N env p t start).2 = .err e) ∧
+    (∀ n, n < (utf8 (serializeHtmlCallsN N env p t start).1.flatten).length →
+        serializeHtmlWriteNB (BytePolicy.byteBudget n) N env p t start
+          = ((utf8 (serializeHtmlCallsN N env p t start).1.flatten).take n, .err .io)) := by
+  have he' : (serializeHtmlWriteN N env p t start).2 = .err e := ((C19_normalizer_write N env p t start).2.2.1 e).2 he
+  have h2 : (serializeHtmlCallsN N env p t start).2 = .err e := by
+    rw [← he']; exact congrArg Prod.snd (serializeHtmlCallsN_eq N env p t start)
+  refine ⟨?_, ?_, ?_, ?_⟩
+  · intro hok
+    unfold serializeHtmlWriteNB replayCallsB
+    rw [hok]
+    simp only []
+    rw [← utf8_flatten, h2]
+  · intro b hb
+    unfold serializeHtmlWriteNB replayCallsB
+    rw [hb]
+  · intro n hn
+    unfold serializeHtmlWriteNB
+    rw [replayCallsB_byteBudget, if_pos hn, h2]
+  · intro n hn
+    unfold serializeHtmlWriteNB
+    rw [replayCallsB_byteBudget, if_neg (by omega)]
+
+/-- Non-vacuity: `<p>é😀</p>` (env: name 2 = `p`): the calls are the doctype (15 bytes), `<p`, the empty token of the
+    inherited `xml` prefix, `>`, `é😀` (2 + 4 bytes), `</p>`: 28 bytes.  Budget 14 stops inside the doctype; 19 inside
+    `é`, 22 inside `😀` (the character-level writer seen through it holds only `…<p>é`); 28 is enough. -/
+example :
+    let env : Env := ⟨[[], xmlNs], [[], ['x','m','l']], [(['s','p','a','c','e'], 1), (['i','d'], 1), (['p'], 0)]⟩
+    let t : Tree := .node (.element 2) [.node (.text ['é', '😀']) []]
+    (serializeHtmlCalls env {} t []).1.map String.ofList = ["<!DOCTYPE html>", "<p", "", ">", "é😀", "</p>"] ∧
+    serializeHtmlWriteB (.byteBudget 14) env {} t [] = (utf8 "<!DOCTYPE html".toList, .err .io) ∧
+    serializeHtmlWriteB (.byteBudget 19) env {} t [] = (utf8 "<!DOCTYPE html><p>".toList ++ [0xC3], .err .io) ∧
+    serializeHtmlWriteB (.byteBudget 22) env {} t [] = (utf8 "<!DOCTYPE html><p>é".toList ++ [0xF0, 0x9F], .err .io) ∧
+    serializeHtmlWriteW (BytePolicy.byteBudget 22).chars env {} t [] = ("<!DOCTYPE html><p>é".toList, .err .io) ∧
+    serializeHtmlWriteB (.byteBudget 27) env {} t [] = (utf8 "<!DOCTYPE html><p>é😀</p".toList, .err .io) ∧
+    serializeHtmlWriteB (.byteBudget 28) env {} t [] = (utf8 "<!DOCTYPE html><p>é😀</p>".toList, .ok ()) ∧
+    "<!DOCTYPE html><p>é😀</p>".toUTF8.data.toList = utf8 "<!DOCTYPE html><p>é😀</p>".toList := by decide
+
+/-- Error priority at byte level: `<?pi a>b?>` in a document fails with `ProcessingInstructionGtInHtml` after the
+    doctype's 15 bytes: budget 14 gives `Io`, budget 15 the serialisation error. -/
+example :
+    let env : Env := ⟨[[], xmlNs], [[], ['x','m','l']], [(['s','p','a','c','e'], 1), (['i','d'], 1), (['p','i'], 0)]⟩
+    let t : Tree := .node .document [.node (.pi 2 (some ['a','>','b'])) []]
+    (serializeHtmlWriteB (.byteBudget 14) env {} t []).2 = .err .io ∧
+    (serializeHtmlWriteB (.byteBudget 14) env {} t []).1.length = 14 ∧
+    serializeHtmlWriteB (.byteBudget 15) env {} t [] = (utf8 htmlDoctype, .err .processingInstructionGtInHtml) := by decide
 
 end XotModel.Props
